@@ -174,7 +174,7 @@ Proof.
   - unfold lsp_exit. destruct (c_writer c).
     + apply Nat.eq_le_incl. same.
     + eapply Nat.le_trans; [apply lax_chain|]. rewrite bal_log.
-      unfold bal, add_wq. proj. rewrite sum_snoc. cbn [pw]. lia.
+      unfold bal, add_wq, log. proj. rewrite sum_snoc. cbn [pw]. lia.
   - destruct fails.
     + eapply Nat.le_trans; [apply lax_hook|]. rewrite !bal_log. lia.
     + eapply Nat.le_trans; [apply lax_chain|]. rewrite !bal_log. lia.
